@@ -424,21 +424,21 @@ func ruleEscapeSet(r *Run) {
 func ruleFwdErrPrompt(r *Run) {
 	p := r.P
 	n := 0
+	// the reply loops: clientStream.RecvMsg in a loop, wherever in the proxy's functions it lives
+	var recvs []*ssa.Call
 	for _, g := range p.proxyClosures() {
-		// the reply loop: clientStream.RecvMsg in a loop; its error cell
-		var recv *ssa.Call
+		g := g
 		eachInstr(g, func(in ssa.Instruction) {
 			c, ok := in.(*ssa.Call)
 			if ok && c.Common().IsInvoke() && c.Common().Method.Name() == "RecvMsg" && strings.Contains(typeString(c.Common().Value.Type()), "ClientStream") {
 				if w, _ := (pathQuery{fn: g, start: in, target: func(x ssa.Instruction) bool { return x == in }}).find(); w != nil {
-					recv = c
+					recvs = append(recvs, c)
 				}
 			}
 		})
-		if recv == nil {
-			continue
-		}
-		// is there a pump goroutine at all?
+	}
+	for _, g := range p.proxyClosures() {
+		// the forwarder: the function that spawns the pump; the reply loop is in it or in a helper it calls
 		hasGo := false
 		eachInstr(g, func(in ssa.Instruction) {
 			if _, ok := in.(*ssa.Go); ok {
@@ -446,6 +446,35 @@ func ruleFwdErrPrompt(r *Run) {
 			}
 		})
 		if !hasGo {
+			continue
+		}
+		var recv *ssa.Call         // the backend receive
+		var recvAt ssa.Instruction // the instruction of g at which it happens (itself, or the call of the helper that loops)
+		for _, rc := range recvs {
+			if rc.Parent() == g {
+				recv, recvAt = rc, rc
+			}
+		}
+		if recv == nil {
+			eachInstr(g, func(in ssa.Instruction) {
+				c, ok := in.(ssa.CallInstruction)
+				if !ok || c.Common().IsInvoke() {
+					return
+				}
+				callee := c.Common().StaticCallee()
+				if callee == nil {
+					return
+				}
+				for _, rc := range recvs {
+					for _, h := range p.staticReach(callee) {
+						if rc.Parent() == h {
+							recv, recvAt = rc, in
+						}
+					}
+				}
+			})
+		}
+		if recv == nil {
 			continue
 		}
 		n++
@@ -513,7 +542,7 @@ func ruleFwdErrPrompt(r *Run) {
 		// every such return must be reachable from the loop without passing a Wait, i.e. NOT dominated by a Wait on all paths
 		good := false
 		for _, rt := range backendRets {
-			q := pathQuery{fn: g, start: recv, barrier: isWait, edgeOK: underSpawn, target: func(x ssa.Instruction) bool { return x == rt }}
+			q := pathQuery{fn: g, start: recvAt, barrier: isWait, edgeOK: underSpawn, target: func(x ssa.Instruction) bool { return x == rt }}
 			if w, _ := q.find(); w != nil {
 				good = true
 			}
